@@ -52,6 +52,11 @@ def freeze(v: Any) -> Any:
 
 def const_or_name(v: Any) -> Sym:
     """a value taken out of a folded table: a constant, or - for a symbolic reference to a function / class - the name term"""
+    if type(v).__name__ == "SymLambda":
+        t = ("opaque", str(v))
+        MODULE_LAMBDAS[str(v)] = v.node
+        FUNCTION_REFS.add(t)
+        return t
     if type(v).__name__ == "SymName":
         parts = str(v).split(".")
         t: Sym = ("n", parts[0])
@@ -64,6 +69,8 @@ def const_or_name(v: Any) -> Sym:
 
 # name terms that came out of a folded table as references to functions / classes (never None)
 FUNCTION_REFS: set = set()
+# lambdas that came out of folded module-level tables: text -> ast.Lambda (no closure; free names are module globals)
+MODULE_LAMBDAS: dict = {}
 
 
 def C(v: Any) -> Sym:
